@@ -7,28 +7,45 @@ ID = "C07"
 LEAN_MODULE = "Ctrmml.Properties.C07"
 THEOREMS = ["C07_multiples_of_147", "C07_tempo_closed_form", "C07_tempo_step_le_two", "C07_play_step_grid", "C07_log_on_grid",
             "C07_attenuation_antitone", "C07_pitch_tables_sound", "C07_short_note_counterexample",
-            "C07_tick_delivery", "C07_update_ticks", "C07_key_frame_partial", "C07_key_frame_start", "C07_pitch_value_partial"]
+            "C07_tick_delivery", "C07_update_ticks", "C07_key_frame_partial", "C07_key_frame_start", "C07_pitch_value_partial",
+            "C07_tick_delivery_all_passes", "C07_log_by_updates", "C07_schedule_fm_partial",
+            "C07_tempo_table_partial", "C07_schedule_fm_tempo_partial", "C07_slur_update_partial", "C07_psg_update_partial",
+            "C07_list_machine_times", "C07_export_extent_noloop_partial", "C07_export_covers_first_pass_partial",
+            "C07_schedule_fm_slur_partial", "C07_schedule_psg_partial"]
 LEVEL = "proof"
 STREAM = "vgm.bytes"
 CHUNK = 25
 CASE_SECONDS = 20
 TECHNIQUE = ("Lean 4 proofs over the executable model of MD_Driver/MD_Channel/Platform::vgm_export (plain subset) + byte-exact differential "
              "correspondence of whole VGM files + independent frame-schedule oracle (Spec/Schedule + Spec/VgmParse) on the real files")
-LEVEL_TEXT = ("Machine-checked theorems over Model/MdDriver.lean: the play_step scheduler stays on the 147-sample grid and fires one sequence "
-              "update every 735 samples, so that every register write of the exported log sits on the 60 Hz grid (no floating-point assumption), closed form of the 8-bit tempo accumulator, antitonicity of the FM/PSG "
-              "attenuation formulas in the volume setting, soundness of the regenerated frequency tables. The whole-log statements (key-on/"
-              "key-off frame, pitch value, extent) are checked by the schedule oracle on every real export; the model reproduces every real "
-              "file byte for byte.")
-LEVEL_NOTE = ("Partial: C07_tick_delivery covers the first pass of a track (up to its end / loop-back); C07_key_frame_partial is per update for "
-              "FM channels of tracks without SLUR (hypotheses: no platform/drum-mode events, step budget), composed with C07_update_ticks and "
-              "C07_play_step_grid by hand, not as one theorem over the log; C07_pitch_value_partial gives the computed/written words, not the "
-              "register-file replay; export_extent is NOT proved. These and PSG/slur/loop-pass cases stay in C07_full_statement, covered by "
-              "the spec oracle (Spec/Schedule on the real VGM log) and by byte-exact correspondence. Trusted: Lean kernel, "
-              "Model/MdDriver.lean + PlayerCh + Vgm (agreement with the C++ by differential testing), Spec/Schedule.lean, Spec/VgmParse.lean.")
+LEVEL_TEXT = ("Machine-checked theorems over Model/MdDriver.lean. Clock: the play_step scheduler stays on the 147-sample grid and fires one sequence "
+              "update every 735 samples (no floating-point assumption). Whole log: the export loop of every successful export is exactly the sequence "
+              "updates 0..K, the writes of update k at sample 735k, waits summing to 735K, K the first update after which no channel plays or the loop "
+              "count is reached, a loop marker after update k iff loop_trigger is set and get_loop_count()=0 (C07_log_by_updates). Tick stream: "
+              "play_tick delivers on EVERY pass of a track what the looping list machine over perf delivers (loop-back to the loop point, a loop "
+              "section that takes no time ends the track; C07_tick_delivery_all_passes) and the item starting at tick t is delivered by call t, its "
+              "synthetic rest at t+on (C07_list_machine_times). Schedule: for a song with one channel track the tick table (N_k, c_k, tempo_k) is a "
+              "function of the tick stream alone, tempo commands taking effect from the next update (C07_tempo_table_partial); for an FM channel "
+              "without SLUR every update k of the log writes key-off / key-on (last) iff the events of ticks N_k..N_{k+1}-1 call for them "
+              "(C07_schedule_fm_partial, C07_schedule_fm_tempo_partial), and with slurs the slur flag and the suppressed key writes follow the tick stream update by update (C07_schedule_fm_slur_partial); for a PSG melody channel the last attenuation write of a key-on update is psgAtt(volume, first envelope level) and 15 in the update in which the track ends (C07_schedule_psg_partial); per update: slurred FM notes (no key-off, no key-on, pitch only), PSG "
+              "attenuation at key-on and 15 at the end of the track (C07_slur_update_partial, C07_psg_update_partial); extent of the log for a track "
+              "without loop point (C07_export_extent_noloop_partial), and for any loop structure the log covers the whole first pass (C07_export_covers_first_pass_partial). Closed form of the tempo accumulator, antitonicity of the attenuation formulas, "
+              "soundness of the regenerated frequency tables. The model reproduces every real file byte for byte; the schedule oracle judges every real export.")
+LEVEL_NOTE = ("Partial: the whole-log theorems are for songs with ONE channel track (plus subroutine tracks); SegTop (every SEGNO at the top level of the "
+              "channel's own track) is a hypothesis of the all-pass theorems - outside it the real player resumes elsewhere (known findings segno-in-sub, "
+              "segno-in-loop); the PSG theorem reads the volume setting and the envelope off the channel state (their derivation from the VOL/INS commands is the oracle's); C07_pitch_value_partial gives "
+              "the computed/written words, not the register-file replay; export_extent is proved for tracks without loop point only - for looping songs "
+              "C07_log_by_updates says when set_loop/stop happen in terms of loop_trigger/get_loop_count, the loop-count lemma (reset position re-crossed "
+              "one loop length after the marker) is NOT proved. These, several channels (tempo commands of all channels compete in track order), and "
+              "max_seconds stay in C07_full_statement, decided per export by the spec oracle (Spec/Schedule on the real VGM log) and by byte-exact "
+              "correspondence. Trusted: Lean kernel, Model/MdDriver.lean + PlayerCh + Vgm (agreement with the C++ by differential testing), "
+              "Spec/Schedule.lean, Spec/VgmParse.lean.")
 RULE = ("IR songs of the plain playback subset: 1..9 FM/PSG channels (+ occasional noise/dummy channels and subroutine tracks), notes, rests, "
         "ties, slurs, counted loops with breaks, calls, loop point, BPM tempo 30..255 and native tempo 1..255 incl. mid-song changes, coarse/"
         "fine/relative volume, transpose (abs/rel), detune, instrument changes (FM 4op with random TL/algorithm/transpose, PSG envelopes with "
-        "slides, sustain and loop); non-trivial = has tempo change, loop, call, segno, slur, instrument or volume command; distinct by request text")
+        "slides, sustain and loop); families: short loop sections at fast tempi (several passes), tempo commands at the first/last tick of an update, "
+        "slur chains, PSG notes at the boundaries of the volume scales; non-trivial = has tempo change, loop, call, segno, slur, instrument or volume "
+        "command; distinct by request text")
 EXPLANATION = ("byte-exact comparison of the exported VGM with the model's VGM; the oracle replays the real log frame by frame on a register "
                "file and compares key-on/key-off frames, block/fnum or PSG divider and attenuation at each key-on with the schedule computed "
                "from the structural expansion of the tracks and the tempo events")
@@ -245,6 +262,106 @@ def random_song(rng, tier):
     return song, ins, tags
 
 
+def fam_loop_passes(rng):
+    """one or two channels, every one `pre L post` with the same short loop length, fast tempi: several loop
+    passes inside few updates, loop sections of 2..6 ticks, loop point reached at different ticks"""
+    chans = rng.choice([[0], [3], [0, 1], [0, 6], [7], [2, 8]])
+    L = rng.choice([2, 2, 3, 4, 5, 6])
+    song = {}
+    tempo = rng.choice([None, ("TEMPO", 255), ("TEMPO", 200), ("TEMPO", 127), ("TEMPO", 64), ("TEMPO_BPM", 255), ("TEMPO_BPM", 150)])
+    for i, c in enumerate(chans):
+        evs = []
+        if tempo and i == 0:
+            evs.append(ev(tempo[0], tempo[1]))
+        for _ in range(rng.randrange(0, 3)):
+            d = rng.choice([1, 2, 3])
+            on = rng.randrange(1, d + 1)
+            evs.append(ev("NOTE", rng.randrange(24, 80), on, d - on) if rng.random() < 0.7 else ev("REST", 0, 0, d))
+        evs.append(ev("SEGNO"))
+        left = L
+        while left > 0:
+            d = rng.randrange(1, left + 1)
+            r = rng.random()
+            if r < 0.6:
+                on = rng.randrange(1, d + 1)
+                evs.append(ev("NOTE", rng.randrange(24, 80), on, d - on))
+            elif r < 0.8:
+                evs.append(ev("REST", 0, 0, d))
+            else:
+                on = rng.randrange(0, d + 1)
+                evs.append(ev("TIE", 0, on, d - on))
+            left -= d
+        song[c] = evs
+    return song, [], {"loop-pass", "segno"}
+
+
+def fam_tempo_boundary(rng):
+    """a tempo command after k ticks of 1-tick items at two ticks per update (k odd / even: first or second
+    tick of an update), then notes whose frames depend on when the new tempo takes effect"""
+    c = rng.choice([0, 4, 6])
+    k = rng.randrange(0, 7)
+    evs = [ev("TEMPO", 255)]
+    for i in range(k):
+        evs.append(ev("NOTE", 30 + i, 1, 0) if rng.random() < 0.5 else ev("REST", 0, 0, 1))
+    evs.append(ev(*rng.choice([("TEMPO", 127), ("TEMPO", 63), ("TEMPO", 254), ("TEMPO", 128), ("TEMPO", 1), ("TEMPO_BPM", 75),
+                               ("TEMPO_BPM", 150), ("TEMPO_BPM", 300)])))
+    for i in range(rng.randrange(2, 6)):
+        d = rng.choice([1, 2, 3])
+        on = rng.randrange(1, d + 1)
+        evs.append(ev("NOTE", 50 + i, on, d - on))
+        if rng.random() < 0.25:
+            evs.append(ev("TEMPO", rng.choice([255, 200, 100, 31])))
+    song = {c: evs}
+    if rng.random() < 0.4:
+        other = 1 if c != 1 else 2
+        song[other] = [ev("NOTE", 40, 3, 1), ev("TEMPO", rng.choice([255, 64, 180])), ev("NOTE", 41, 2, 2), ev("NOTE", 43, 4, 0)]
+    return song, [], {"tempo-boundary", "tempo-native"}
+
+
+def fam_slur_chain(rng):
+    """chains of slurred notes (no re-key, pitch change only), with ties and rests in between, on FM and PSG"""
+    c = rng.choice([0, 5, 6, 8])
+    evs = []
+    if rng.random() < 0.5:
+        evs.append(ev("TEMPO", rng.choice([255, 200, 128, 90])))
+    for _ in range(rng.randrange(1, 4)):
+        d = rng.choice([2, 3, 4, 6])
+        evs.append(ev("NOTE", rng.randrange(30, 70), d, 0))
+        for _ in range(rng.randrange(1, 5)):
+            evs.append(ev("SLUR"))
+            d = rng.choice([2, 3, 4])
+            on = d if rng.random() < 0.7 else rng.randrange(2, d + 1)
+            evs.append(ev("NOTE", rng.randrange(30, 70), on, d - on))
+            if rng.random() < 0.2:
+                evs.append(ev("TIE", 0, 2, 0))
+        if rng.random() < 0.6:
+            evs.append(ev("REST", 0, 0, rng.choice([1, 2, 3])))
+    return {c: evs}, [], {"slur-chain", "slur"}
+
+
+def fam_psg_volume(rng):
+    """PSG notes at the boundaries of the volume scales: coarse 0/15 and one step beyond, fine 0,1,2,41,42,63,64,
+    relative steps across them, envelopes whose first level is 15 / 8 / 0"""
+    c = rng.choice([6, 7, 8])
+    ins = [(10, ["psg", "15"]), (11, ["psg", "8", "4:3"]), (12, ["psg", "0"])]
+    evs = []
+    if rng.random() < 0.7:
+        evs.append(ev("INS", rng.choice([10, 11, 12])))
+    for _ in range(rng.randrange(2, 6)):
+        r = rng.random()
+        if r < 0.35:
+            evs.append(ev("VOL", rng.choice([0, 1, 14, 15])))
+        elif r < 0.6:
+            evs.append(ev("VOL_FINE", rng.choice([0, 1, 2, 3, 41, 42, 43, 63, 64, 65, 127])))
+        elif r < 0.85:
+            evs.append(ev(rng.choice(["VOL_REL", "VOL_FINE_REL"]), rng.choice([-2, -1, 1, 2])))
+        else:
+            evs.append(ev("INS", rng.choice([10, 11, 12])))
+        d = rng.choice([2, 3, 4])
+        evs.append(ev("NOTE", rng.randrange(30, 80), d, rng.choice([0, 1, 2])))
+    return {c: evs}, ins, {"psg-volume", "vol"}
+
+
 CORPUS = [
     # one FM note / one PSG note, default tempo
     "mdvgm T0:2.48.2.1,2.50.3.0",
@@ -282,6 +399,15 @@ CORPUS = [
     # unsupported panning value / PSG panning: InputError
     "mdvgm T3:21.7.0.0,2.40.2.2",
     "mdvgm T6:21.1.0.0,2.40.2.2",
+    # loop point inside a subroutine: the second pass resumes at that index of the channel's own track (known finding segno-in-sub)
+    "mdvgm T0:2.40.2.0,8.100.0.0,2.45.2.2 T100:2.60.1.1,7.0.0.0,2.61.1.1",
+    # loop point inside a counted loop: the jump back lands in the loop body with an empty stack (known finding segno-in-loop)
+    "mdvgm T0:27.255.0.0,4.0.0.0,2.40.2.0,7.0.0.0,2.42.1.0,6.2.0.0,2.45.4.4",
+    # the song of the non-vacuity examples of Properties/C07 (loop passes of a single FM channel)
+    "mdvgm T0:2.40.2.1,7.0.0.0,2.42.2.2",
+    # a loop section that takes no time ends the track; two loop points at the top level
+    "mdvgm T0:2.40.2.0,7.0.0.0,13.5.0.0",
+    "mdvgm T0:2.40.2.0,7.0.0.0,2.41.1.1,7.0.0.0,2.42.2.2",
     # structural errors
     "mdvgm T0:2.40.2.2,6.2.0.0",
     "mdvgm T0:8.300.0.0",
@@ -312,6 +438,10 @@ def cases(rng, tier):
     for v in range(0, 128, 16 if tier == "quick" else 1):
         yield Case("mdvgm T4:17.1.0.0,20.%d.0.0,2.40.1.1 T8:20.%d.0.0,2.40.1.1 @1=fm,5,0,%s" % (
             v, v, ",".join("31,0,0,0,0,%d,0,1,0,0" % tl for tl in (20, 127, 64, 0))), ("volfine", "exh"), "exhaustive")
+    for fam, cnt in ((fam_loop_passes, 60), (fam_tempo_boundary, 50), (fam_slur_chain, 40), (fam_psg_volume, 40)):
+        for _ in range(cnt if tier == "quick" else cnt * 12):
+            song, ins, tags = fam(rng)
+            yield Case(render(song, ins), sorted(tags), "structured")
     n = 600 if tier == "quick" else 12000
     made = 0
     while made < n:
